@@ -88,12 +88,46 @@ def sliced(ld, targets):
     for n in ast.walk(tree):
         if isinstance(n, ast.FunctionDef) and n.name == "_sample_unit_cell":
             fn = n
-    keep = []
-    for st in fn.body:
-        if isinstance(st, ast.Assign):
-            t = ast.unparse(st.targets[0])
-            if isinstance(st.targets[0], ast.Tuple) or t in targets:
-                keep.append(st)
+    # backward slice over the top-level statements: the statements that assign a target, plus (transitively) every statement that defines
+    # a local name or self attribute which a kept statement reads - independent of how the code names its temporaries
+    def defs(st):
+        out = set()
+        for n in ast.walk(st):
+            if isinstance(n, (ast.Name, ast.Attribute)) and isinstance(getattr(n, "ctx", None), ast.Store):
+                out.add(ast.unparse(n))
+            if isinstance(n, ast.Subscript) and isinstance(n.ctx, ast.Store):
+                out.add(ast.unparse(n.value))
+        return out
+
+    def uses(st):
+        out = set()
+        for n in ast.walk(st):
+            if isinstance(n, ast.Name) and isinstance(n.ctx, ast.Load):
+                out.add(n.id)
+            if isinstance(n, ast.Attribute) and isinstance(n.ctx, ast.Load) and isinstance(n.value, ast.Name) and n.value.id == "self":
+                out.add(ast.unparse(n))
+        return out
+
+    body = list(fn.body)
+    need = set(targets)
+    keep_idx = set()
+    changed = True
+    while changed:
+        changed = False
+        for i in range(len(body) - 1, -1, -1):
+            st = body[i]
+            if i in keep_idx or isinstance(st, ast.Expr) and isinstance(st.value, ast.Constant):
+                continue
+            d = defs(st)
+            if d & need or (isinstance(st, ast.Assign) and isinstance(st.targets[0], ast.Tuple)):
+                keep_idx.add(i)
+                new = uses(st) - need
+                # only names that are defined somewhere in the function body matter (globals / parameters / built state are available anyway)
+                new = {u for u in new if any(u in defs(b) for b in body)}
+                if new:
+                    need |= new
+                changed = True
+    keep = [body[i] for i in sorted(keep_idx)]
     fn.body = keep
     from pycv.loader import _Literals
 
@@ -101,7 +135,7 @@ def sliced(ld, targets):
     ast.fix_missing_locations(m)
     g = dict(mod.__dict__)
     exec(compile(m, "<sliced _sample_unit_cell>", "exec"), g)
-    return g["_sample_unit_cell"], [ast.unparse(s.targets[0]) for s in keep]
+    return g["_sample_unit_cell"], [ast.unparse(s.targets[0]) for s in keep if isinstance(s, ast.Assign)]
 
 
 def _rand_env(C, rng):
@@ -129,7 +163,7 @@ class Sample:
     def __call__(self, ob, tier, seed):
         try:
             return self.prove(ob, tier, seed)
-        except (A.OutsideSubset, A.Undecided, TypeError, AttributeError, ValueError, IndexError) as e:
+        except (A.OutsideSubset, A.Undecided, TypeError, AttributeError, ValueError, IndexError, NameError, KeyError) as e:
             ok, info = self.replay(dict(clause=self.clause))
             if ok:
                 return Result(REFUTED, backend="native-contract-evaluation", witness=dict(clause=self.clause), replayed=True, replay_info=info,
